@@ -462,6 +462,28 @@ Theorem c12_relogin_code_partial :
 Proof. exact code_login_bound. Qed.
 Print Assumptions c12_relogin_code_partial.
 
+(* the temporary token handed to a credential validator when a credential is added to an existing
+   account (replyUpdateUser, Topic.replySetCred): restricted, level None, for that user, and not
+   accepted beyond 24 h from its issue; by c12_relogin_chain the same holds for everything it is
+   exchanged for *)
+Theorem c12_tmp_token_update_cred :
+  forall (mac : list N -> list N -> list N) c now uid tok exp,
+  tmp_token mac c now (update_cred_rec uid) = Some (tok, exp) ->
+  tok_restricted tok = true /\ f_level (tok_fields tok) = 0%N /\ f_uid (tok_fields tok) = (uid mod 2 ^ 64)%N /\
+  forall key' sn' now' r, 0 <= now -> authenticate mac key' sn' now' tok = TOk r -> now' < now + tmp_token_lifetime.
+Proof. exact tmp_token_update. Qed.
+Print Assumptions c12_tmp_token_update_cred.
+
+(* the one made when an account is created (replyCreateUser) carries NO no-login bit and level
+   Auth: it is a 24 h login token (as the code is; presenting it is a full login) *)
+Theorem c12_tmp_token_create_account :
+  forall (mac : list N -> list N -> list N) c now uid tok exp,
+  tmp_token mac c now (create_cred_rec uid) = Some (tok, exp) ->
+  tok_restricted tok = false /\ f_level (tok_fields tok) = 20%N /\ f_uid (tok_fields tok) = (uid mod 2 ^ 64)%N /\
+  forall key' sn' now' r, 0 <= now -> authenticate mac key' sn' now' tok = TOk r -> now' < now + tmp_token_lifetime.
+Proof. exact tmp_token_create. Qed.
+Print Assumptions c12_tmp_token_create_account.
+
 (* non-vacuity: a restricted one hour token exchanged twice, 100 s and 1000 s after issue, on
    fresh sessions: both times restricted, same expiry second, session not authenticated; the
    same token without the no-login bit authenticates and is renewed for two weeks *)
